@@ -62,6 +62,20 @@ class Universe:
         chain("d", self.labels["t5"], range(6, 28))
         chain("r", self.labels["t28"], range(29, 32))
         chain("e", self.labels["d19"], range(20, 25))
+        # a branch that contains a block of exactly the maximum size (200,000 bytes): x32
+        prev = chain("x", self.labels["t30"], [31])
+        op, fees = gen.honest_block(parent=gen.L[prev], n_tx=0)
+        op["struct"] = "maxsize"
+        blk = self.world.build_block(op)
+        assert blk is not None and len(blk.raw()) == R.MAX_BLOCK_SIZE and not self.world.uni.validate(blk, blk.ts), "maximum-size block invalid"
+        self.world.accept(op["label"], blk)
+        self.labels["x32"] = op["label"]
+        self.big = blk.id()
+        # its successor is built by hand (the label-level generator does not know the many-output reward of x32)
+        nxt = self.world.build_block({"label": "x33", "parent": op["label"], "miner": 1, "dt": 10, "txs": []})
+        assert nxt is not None and not self.world.uni.validate(nxt, nxt.ts)
+        self.world.accept("x33", nxt)
+        self.labels["x33"] = "x33"
         self.tips = ["t30", "t30", "t20", "t12", "d27", "d15", "r31", "r30", "r30", "r29", "e24", "t5", "g", "t3"]
         self.sk = {}
 
@@ -122,18 +136,21 @@ class Sim:
         for k, tips in enumerate(case["tips"]):
             ids = u.closure(tips)
             cs = u.coinstate(ids, _random.Random(case["sched_seed"] + k))
-            n = self.net.add("N%d" % k, "10.0.0.%d" % (k + 1), cs, 100 + k)
+            if case.get("shared_host"):            # all nodes behind one address (one machine / one NAT), told apart by port only
+                n = self.net.add("N%d" % k, "10.0.0.1", cs, 100 + k, port=2412 + k)
+            else:
+                n = self.net.add("N%d" % k, "10.0.0.%d" % (k + 1), cs, 100 + k)
             n.cm.started_at = simnet.CLOCK.now - case.get("started_ago", 0)
             self.nodes.append(n)
         for a, b_ in case["topo"]:
             peers = self.nodes[a].nm.disconnected_peers
-            peers.update(RP.load_peers_from_list([(self.nodes[b_].host, 2412, RP.OUTGOING)]))
-        blocked = {(self.nodes[x].host, self.nodes[y].host) for x, y in case.get("blocked", [])}
+            peers.update(RP.load_peers_from_list([(self.nodes[b_].host, self.nodes[b_].lp.port, RP.OUTGOING)]))
+        blocked = {(self.nodes[x].name, (self.nodes[y].host, self.nodes[y].lp.port)) for x, y in case.get("blocked", [])}
         if blocked:
             orig_do = self.net.do
 
             def do(ev, arg=None):
-                if ev[0] == "connect" and (ev[1].node.host, ev[1].remote_addr[0]) in blocked:
+                if ev[0] == "connect" and (ev[1].node.name, tuple(ev[1].remote_addr[:2])) in blocked:
                     arg = "refuse"
                 return orig_do(ev, arg)
 
@@ -185,13 +202,13 @@ class Sim:
         pair = rnd.sample(self.nodes, 2)
         if self.case.get("staged_pair"):
             pair = [self.nodes[i] for i in self.case["staged_pair"]]
-        hosts = {n.host for n in pair}
+        hosts = {(n.host, n.lp.port) for n in pair}
         for _ in range(rnd.choice([2, 3, 5])):
             for n in pair:
                 net.step(n)
             h0 = self.handled
             while True:
-                evs = [e for e in net.enabled(only=pair) if e[0] != "connect" or (e[1].node in pair and e[1].remote_addr[0] in hosts)]
+                evs = [e for e in net.enabled(only=pair) if e[0] != "connect" or (e[1].node in pair and tuple(e[1].remote_addr[:2]) in hosts)]
                 if not evs:
                     break
                 e = evs[rnd.randrange(len(evs))]
@@ -359,12 +376,13 @@ class Sim:
 
     def links_up(self):
         """is the graph of ACTIVE (greeted both ways) connections connected?"""
-        by_host = {n.host: k for k, n in enumerate(self.nodes)}
+        index = {n.name: k for k, n in enumerate(self.nodes)}
         adj = {k: set() for k in range(len(self.nodes))}
         for k, n in enumerate(self.nodes):
             for p in n.nm.get_active_peers():
-                if p.host in by_host:
-                    adj[k].add(by_host[p.host])
+                other = getattr(getattr(p.sock, "peer", None), "node", None)      # the node at the far end of this connection
+                if other is not None and getattr(other, "name", None) in index:
+                    adj[k].add(index[other.name])
         for k in adj:                         # a link counts only when both ends consider it active
             adj[k] = {j for j in adj[k] if k in adj[j]}
         seen, todo = {0}, [0]
@@ -462,10 +480,14 @@ def gen_case(rnd, u):
     for _ in range(n):
         k = rnd.choice([1, 1, 2])
         tips.append([u.tips[rnd.randrange(len(u.tips))] for _ in range(k)])
+    if rnd.random() < 0.07:
+        tips[rnd.randrange(n)] = ["x33"]            # one node holds the branch with the maximum-size block (a 200,000-byte message)
     topo = rnd.choice(TOPOS2 if n == 2 else TOPOS3)
     case = {"tips": tips, "topo": [list(x) for x in topo], "batch": rnd.choice([500, 3, 4, 3]), "sched_seed": rnd.randrange(1 << 30),
             "discipline": rnd.choice(["uniform", "priority", "run_to_completion", "starvation", "staged", "staged"]), "n_events": rnd.choice([0, 50, 300, 1500]),
             "clock_off": rnd.choice([0, 7, 59]), "started_ago": rnd.choice([0, 30, 10_000])}
+    if rnd.random() < 0.3:
+        case["shared_host"] = True           # every node behind ONE address (same machine / same NAT): peers differ by port only
     if rnd.random() < 0.5:
         case["relay"] = {"block_from": rnd.randrange(3), "tx_from": rnd.randrange(3), "tx_pick": rnd.randrange(50), "n_events": rnd.choice([0, 100, 600])}
     return case
@@ -507,6 +529,12 @@ def run(shard, tier, seed):
         res.count("protocol_messages_handled", sim.handled)
         res.count("discipline:" + case["discipline"])
         res.count("family:" + case.get("family", "free"))
+        if any(t == "x33" for ts in case["tips"] for t in ts):
+            res.count("chains_with_a_maximum_size_block")
+        if case.get("shared_host"):
+            res.count("shared_host_address")
+            if sim.stats.get("relay_phase"):
+                res.count("shared_host_address_with_relay_phase")
         res.count("batch:%d" % case["batch"])
         res.count("nodes:%d" % len(case["tips"]))
         res.extra["max_protocol_messages_in_one_drain"] = max(res.extra.get("max_protocol_messages_in_one_drain", 0), sim.stats.get("max_handled_in_a_drain", 0))
